@@ -5,7 +5,9 @@ ID = 'C15'
 RULE = ('SCC streams in pop-on, roll-up and paint-on mode (and mixtures) whose rows carry 0-40 plain '
         'characters with the lengths concentrated on 31/32/33/40; pop-on and paint-on captions use adjacent '
         'rows (several lines in one caption) and non-adjacent rows (several captions sharing a start), so '
-        'that the long line is first / middle / last of a same-start group. A row is addressed once per load '
+        'that the long line is first / middle / last of a same-start group. Rows may begin with one or two blanks (cells of the row; trailing blanks are not generated: the reader '
+        'counts them only for some groupings, and the statement does not say whether they belong to the line). '
+        'A row is addressed once per load '
         '(text overlaid on a row by a second PAC has no defined "line" in the statement). Oracle from the transmitted '
         'rows alone: some row > 32 => CaptionLineLengthError whose message contains every offending row; '
         'otherwise a normal return in which every line has <= 32 characters. Non-trivial: at least one row '
@@ -13,7 +15,8 @@ RULE = ('SCC streams in pop-on, roll-up and paint-on mode (and mixtures) whose r
 ANCHORS = ['pycaption.scc:SCCReader.read']
 REQUIRE = {'streams_with_long_row': 50, 'streams_without_long_row': 50, 'long_rows_in_same_start_group': 20,
            'errors_checked': 50, 'returned_lines_checked': 200, 'mode_roll': 20, 'mode_paint': 20,
-           'mode_pop': 20, 'two_long_rows_same_start': 5, 'streams_with_empty_row': 30}
+           'mode_pop': 20, 'two_long_rows_same_start': 5, 'streams_with_empty_row': 30,
+           'rows_of_32_or_more_cells_with_leading_blanks': 20}
 
 LENGTHS = [0, 0, 1, 5, 12, 20, 28, 31, 32, 32, 32, 33, 33, 34, 40]
 
@@ -60,6 +63,8 @@ def check(case, ctx):
     long_rows = [r for r in rows if len(r) > 32]
     if any(len(r) == 0 for r in rows):
         ctx.count('streams_with_empty_row')
+    if any(r.startswith(' ') and len(r) >= 32 for r in rows):
+        ctx.count('rows_of_32_or_more_cells_with_leading_blanks')
     for g in _groups(st):
         if len(g) >= 2 and any(n > 32 for n in g):
             ctx.count('long_rows_in_same_start_group')
